@@ -41,6 +41,20 @@ PURE_EXTERNALS = {"strlen", "strcmp", "strncmp", "memcmp", "abs", "labs", "strch
                   "vbi_add_bcd", "vbi_neg_bcd"}
 
 
+_INV = []
+
+
+def known_subscript(f, key):
+    """Was this subscript site (canonical key) part of function f when the tables were confirmed?"""
+    if not _INV:
+        _INV.append(load_inventory() or {})
+    subs = _INV[0].get("subscripts")
+    if subs is None:
+        return True
+    fn = getattr(f, "inv_name", None) or f.name
+    return key in subs.get(f.file, {}).get(fn, ())
+
+
 def load_inventory():
     try:
         with open(INVENTORY) as fh:
